@@ -12,6 +12,7 @@
 //	C16|vf|set|pk|msg|ctx|sig|tag             Verify -> ok | rej | badkey
 //	C16|ts|set|T/N|id|sk|msg|addrnd|tag       Tink signer from a keyset handle -> hex(prefix‖sig) | err
 //	C16|tv|set|T/N|id|pk|msg|sig|tag          Tink verifier from a keyset handle -> ok | rej | badkey
+//	C16|gk|set|T/N|id|skSeed|skPrf|pkSeed|mode|tag   key CREATED by Tink (AddNewKeyFromParameters), see genkey.go
 //
 // tag = "<expectation><mutation label>"; expectation '+' (must be accepted),
 // '-' (must be rejected) or '?'; the tag is not read by Run or by the model.
@@ -216,6 +217,8 @@ func run(in string) string {
 	f := strings.Split(in, "|")
 	p := setByName(f[2])
 	switch f[1] {
+	case "gk":
+		return runGK(in)
 	case "kg":
 		return hx.H(keygenWith(p, hx.UH(f[3]), hx.UH(f[4]), hx.UH(f[5])))
 	case "sg":
@@ -273,6 +276,8 @@ func check(in, obs string) string {
 	p := setByName(f[2])
 	tag := f[len(f)-1]
 	switch f[1] {
+	case "gk":
+		return checkGK(in, obs)
 	case "kg":
 		sk := hx.UH(obs)
 		want := append(append(append([]byte{}, hx.UH(f[3])...), hx.UH(f[4])...), hx.UH(f[5])...)
